@@ -9,7 +9,7 @@ def _prog_of(o):
     if isinstance(inst, (tuple, list)):
         for x in inst:
             if isinstance(x, (tuple, list)) and x and isinstance(x[0], str) and x[0] in (
-                    "leaf", "num", "var", "unary", "binary", "reduce", "subs", "slice", "getitem", "getitem_at", "getslice", "lambda",
+                    "leaf", "num", "var", "unary", "binary", "reduce", "subs", "slice", "getitem", "getitem_at", "constant", "getslice", "lambda",
                     "stack", "cat", "outreduce", "reshape", "einsum", "independent", "align"):
                 return _tup(x)
     return None
@@ -107,3 +107,23 @@ def modified_psp_preserved_plate(o, k):
         return variant == "modified_all" and bool(set(g["plates"]) - set(g["eliminate"]))
     except Exception:
         return False
+
+
+def maxmin_mul_signed(o, k):
+    """a max/min reduction over a product, in a program with signed data (a negation / subtraction / negative constant -
+    which normalize itself rewrites to a factor -1 - or real-carrier leaves), evaluated through normalize / unfold /
+    optimize: (max|min, mul) is in DISTRIBUTIVE_OPS although it distributes on non-negative data only"""
+    p = _prog_of(o)
+    if p is None or o.get("kind") != "value":
+        return False
+    lab = o.get("label", "")
+    if not any(s in lab for s in ("normalize", "optimizer", "unfold")):
+        return False
+    def has_mul(e):
+        return any(n[0] == "binary" and n[1] in ("mul", "truediv") for n in _nodes(e))
+    if not any(n[0] == "reduce" and n[1] in ("max", "min") and has_mul(n[2]) for n in _nodes(p)):
+        return False
+    signed = any((n[0] == "unary" and n[1] == "neg") or (n[0] == "binary" and n[1] == "sub") or
+                 (n[0] == "num" and isinstance(n[1], (int, float)) and n[1] < 0) or
+                 (n[0] == "leaf" and (len(n) < 5 or n[4] in (None, "real"))) for n in _nodes(p))
+    return signed
